@@ -10,4 +10,41 @@ extern GetNestedField
 extern IsNestedField
   props C16 C05 C20
   option pure
+
+// Safety only: reflect.Value.Index panics outside 0 <= i < Len (engine library model, obligation safe:reflect-index).
+func getArrayElement
+  props C05 C16 C20
+  option safety
+
+func ParseFieldPath
+  props C05 C16 C20
+  option safety
+
+func parseComplexPart
+  props C05 C16 C20
+  option safety
+  requires accessor != nil
+  modifies accessor.Parts
+
+func parseBracketContent
+  props C05 C16 C20
+  option safety
+
+func accessFieldPart
+  props C05 C16 C20
+  option safety
+  modifies *
+
+func getMapValue
+  props C05 C16 C20
+  option safety
+
+func getNestedFieldSimple
+  props C05 C16 C20
+  option safety
+  modifies *
+
+func ExtractTopLevelField
+  props C05 C16 C20
+  option safety
 @*/
